@@ -12,6 +12,9 @@ entity c20_f is
   port ( p0 : in bit ; p1 : in integer range 0 to 3 ; p2 : in bit_vector ( 3 downto 0 ) ; q0 : out bit ; q1 : out bit_vector ( 3 downto 0 ) ; q2 : out integer range 0 to 3 ; io0 : inout bit ; bf0 : buffer bit ; pr0 : in rec_t ; qr0 : out rec_t ; qa0 : out arr_t ; lk0 : linkage bit ) ;
 end entity ;
 ";
+const HLIB1: [&str; 3] = ["lib1", "MyLib", "DSP_Core"];
+const HLIB2: [&str; 3] = ["Lib_2b", "lib2", "WORKLIB"];
+const HLIB3: [&str; 3] = ["VENDOR", "Third_P", "lib3"];
 const ARCH_FILES: [&str; 6] = ["l1_f0.vhd", "l1_f1.vhd", "l1_f2.vhd", "l2_f0.vhd", "l2_f1.vhd", "l3_f0.vhd"];
 
 #[derive(Clone)]
@@ -30,30 +33,36 @@ struct FileState {
 }
 
 fn file_state(file: &str, archs: &[ArchSpec]) -> FileState {
-    let mut text = String::new();
-    let mut line = 0u32;
+    let mut tb = TextBuf::new();
     let mut procs = Vec::new();
-    let mut push = |s: &str, text: &mut String, line: &mut u32| {
-        text.push_str(s);
-        text.push('\n');
-        *line += 1;
-    };
-    for a in archs {
-        push("use work.c20_pkg.all ;", &mut text, &mut line);
-        push(&format!("architecture {} of {} is", a.name, a.entity), &mut text, &mut line);
-        for l in ARCH_DECLS.lines() {
-            push(l, &mut text, &mut line);
-        }
-        push("begin", &mut text, &mut line);
-        for c in &a.procs {
-            procs.push((line, c.clone()));
-            for l in c.split('\t').nth(2).unwrap_or("").split('~') {
-                push(l, &mut text, &mut line);
+    for (ai, a) in archs.iter().enumerate() {
+        let field = |c: &str, i: usize| c.split('\t').nth(i).unwrap_or("").to_string();
+        // passive processes live in the statement part of an entity of their own (a primary unit in this file)
+        let passive: Vec<&String> = a.procs.iter().filter(|c| is_passive_flags(&field(c, 1))).collect();
+        if !passive.is_empty() {
+            let texts: Vec<String> = passive.iter().map(|c| field(c, 2)).collect();
+            let refs: Vec<&str> = texts.iter().map(|t| t.as_str()).collect();
+            let name = format!("c20_p_{}_{}_{}", file.trim_end_matches(".vhd"), a.name, a.entity);
+            let ls = emit_passive_entity(&mut tb, &name, &refs);
+            for (c, l) in passive.iter().zip(ls) {
+                procs.push((l, (*c).clone()));
             }
         }
-        push("end architecture ;", &mut text, &mut line);
+        tb.push("use work.c20_pkg.all ;");
+        tb.push(&format!("architecture {} of {} is", a.name, a.entity));
+        for l in ARCH_DECLS.lines() {
+            tb.push(l);
+        }
+        tb.push("begin");
+        for (k, c) in a.procs.iter().enumerate() {
+            if !is_passive_flags(&field(c, 1)) {
+                let l = emit_placed(&mut tb, k + ai, &format!("w{}", k), &field(c, 2));
+                procs.push((l, c.clone()));
+            }
+        }
+        tb.push("end architecture ;");
     }
-    FileState { file: file.to_string(), text, procs }
+    FileState { file: file.to_string(), text: tb.text, procs }
 }
 
 fn gen_arch(rng: &mut Rng, id: &str, name: &str, entity: &str) -> ArchSpec {
@@ -71,6 +80,8 @@ fn lib_of(file: &str) -> &str {
 /// a history: initial file states + steps (each a list of new file states)
 struct Hist {
     id: String,
+    /// names of the three libraries in the project configuration (the third one is third party)
+    libs: [String; 3],
     init: Vec<FileState>,
     steps: Vec<Vec<FileState>>,
 }
@@ -172,7 +183,9 @@ fn gen_hist(rng: &mut Rng, id: String) -> Hist {
         }
         steps.push(touched.iter().map(|t| file_state(&cur[*t].0, &cur[*t].1)).collect());
     }
-    Hist { id, init, steps }
+    let v = r.below(3);
+    let libs = [HLIB1[v].to_string(), HLIB2[(v + 1) % 3].to_string(), HLIB3[(v + 2) % 3].to_string()];
+    Hist { id, libs, init, steps }
 }
 
 fn fs_json(f: &FileState) -> Value {
@@ -180,7 +193,7 @@ fn fs_json(f: &FileState) -> Value {
            "procs": f.procs.iter().map(|(l, c)| json!({"line0": l, "case": c})).collect::<Vec<_>>()})
 }
 fn hist_json(h: &Hist) -> Value {
-    json!({"id": h.id,
+    json!({"id": h.id, "libs": h.libs.to_vec(),
            "init": h.init.iter().map(fs_json).collect::<Vec<_>>(),
            "steps": h.steps.iter().map(|s| s.iter().map(fs_json).collect::<Vec<_>>()).collect::<Vec<_>>()})
 }
@@ -202,17 +215,25 @@ fn hist_of_json(v: &Value) -> Hist {
     let arr = |x: &Value| x.as_array().cloned().unwrap_or_default();
     Hist {
         id: v["id"].as_str().unwrap_or("hist").to_string(),
+        libs: {
+            let l = arr(&v["libs"]);
+            let g = |i: usize, d: &str| l.get(i).and_then(|x| x.as_str()).unwrap_or(d).to_string();
+            [g(0, "lib1"), g(1, "lib2"), g(2, "lib3")]
+        },
         init: arr(&v["init"]).iter().map(fs_of_json).collect(),
         steps: arr(&v["steps"]).iter().map(|s| arr(s).iter().map(fs_of_json).collect()).collect(),
     }
 }
 
-fn hist_config(dir: &Path) -> Config {
-    let toml = "[libraries]\nstd.files=['/repo/vhdl_libraries/std/*.vhd']\nstd.is_third_party=true\n\
-                lib1.files=['l1_*.vhd']\nlib2.files=['l2_*.vhd']\nlib3.files=['l3_*.vhd']\nlib3.is_third_party=true\n";
+fn hist_config(dir: &Path, libs: &[String; 3]) -> Config {
+    let toml = format!(
+        "[libraries]\nstd.files=['/repo/vhdl_libraries/std/*.vhd']\nstd.is_third_party=true\n\
+         {}.files=['l1_*.vhd']\n{}.files=['l2_*.vhd']\n{}.files=['l3_*.vhd']\n{}.is_third_party=true\n",
+        libs[0], libs[1], libs[2], libs[2]
+    );
     let mut msgs = NullMessages;
     let mut cfg = Config::default();
-    cfg.append(&Config::from_str(toml, dir).unwrap(), &mut msgs);
+    cfg.append(&Config::from_str(&toml, dir).unwrap(), &mut msgs);
     cfg
 }
 fn canon_diag(d: &Diagnostic) -> String {
@@ -258,7 +279,7 @@ fn run_hist(dir: &Path, h: &Hist) -> HistOut {
     }
     let res = std::panic::catch_unwind(std::panic::AssertUnwindSafe(|| {
         let mut msgs = NullMessages;
-        let mut inc = Project::from_config(hist_config(dir), &mut msgs);
+        let mut inc = Project::from_config(hist_config(dir, &h.libs), &mut msgs);
         inc.enable_sensitivity_list_linting();
         let mut results: Vec<(Vec<Diagnostic>, Vec<Diagnostic>, HashMap<String, FileState>)> = Vec::new();
         for step in 0..=h.steps.len() {
@@ -270,7 +291,7 @@ fn run_hist(dir: &Path, h: &Hist) -> HistOut {
                 }
             }
             let di = inc.analyse();
-            let mut fresh = Project::from_config(hist_config(dir), &mut msgs);
+            let mut fresh = Project::from_config(hist_config(dir, &h.libs), &mut msgs);
             fresh.enable_sensitivity_list_linting();
             let df = fresh.analyse();
             results.push((di, df, cur.clone()));
@@ -348,6 +369,9 @@ fn run_hist(dir: &Path, h: &Hist) -> HistOut {
 }
 
 // ---------------------------------------------------------------- hand-made histories
+fn corpus_libs(i: usize) -> [String; 3] {
+    [HLIB1[i % 3].to_string(), HLIB2[(i + 1) % 3].to_string(), HLIB3[(i + 2) % 3].to_string()]
+}
 fn corpus_hists() -> Vec<Hist> {
     let mut rng = Rng::new(20);
     let mut v = Vec::new();
@@ -357,12 +381,14 @@ fn corpus_hists() -> Vec<Hist> {
     let mut b = a.clone();
     b.name = "a1".into();
     v.push(Hist {
+        libs: corpus_libs(v.len()),
         id: "corpus.H1.rename".into(),
         init: vec![file_state("l1_f0.vhd", &[a.clone()])],
         steps: vec![vec![file_state("l1_f0.vhd", &[b.clone()])], vec![file_state("l1_f0.vhd", &[a.clone()])]],
     });
     // H2: empty the file of the architecture
     v.push(Hist {
+        libs: corpus_libs(v.len()),
         id: "corpus.H2.empty".into(),
         init: vec![file_state("l1_f0.vhd", &[a.clone()])],
         steps: vec![vec![file_state("l1_f0.vhd", &[])], vec![file_state("l1_f1.vhd", &[b.clone()])]],
@@ -371,6 +397,7 @@ fn corpus_hists() -> Vec<Hist> {
     let c = arch("H3.c", "a2", "c20_e");
     let d = arch("H3.d", "a1", "c20_e");
     v.push(Hist {
+        libs: corpus_libs(v.len()),
         id: "corpus.H3.replace".into(),
         init: vec![file_state("l1_f0.vhd", &[a.clone(), c.clone()])],
         steps: vec![vec![file_state("l1_f0.vhd", &[a.clone(), d.clone()])], vec![file_state("l1_f0.vhd", &[d.clone()])]],
@@ -378,12 +405,14 @@ fn corpus_hists() -> Vec<Hist> {
     // H4: same-named architectures of two entities; the one of c20_f disappears
     let mut af = arch("H4.f", "a0", "c20_f");
     v.push(Hist {
+        libs: corpus_libs(v.len()),
         id: "corpus.H4.two_entities".into(),
         init: vec![file_state("l1_f0.vhd", &[a.clone()]), file_state("l1_f1.vhd", &[af.clone()])],
         steps: vec![vec![file_state("l1_f1.vhd", &[])], vec![file_state("l1_f0.vhd", &[])]],
     });
     // H5: same-named units in two libraries; the one in lib2 disappears, then the one in lib1 is renamed
     v.push(Hist {
+        libs: corpus_libs(v.len()),
         id: "corpus.H5.two_libraries".into(),
         init: vec![file_state("l1_f0.vhd", &[a.clone()]), file_state("l2_f0.vhd", &[a.clone()])],
         steps: vec![vec![file_state("l2_f0.vhd", &[])], vec![file_state("l1_f0.vhd", &[b.clone()])]],
@@ -391,6 +420,7 @@ fn corpus_hists() -> Vec<Hist> {
     // H6: third-party library: never reported, also after edits; architecture moved between files
     af.name = "a1".into();
     v.push(Hist {
+        libs: corpus_libs(v.len()),
         id: "corpus.H6.third_party_move".into(),
         init: vec![file_state("l3_f0.vhd", &[a.clone()]), file_state("l1_f0.vhd", &[a.clone(), af.clone()])],
         steps: vec![
